@@ -83,6 +83,10 @@ fn rand_stack(rng: &mut Rng) -> String {
 
 pub fn gen_tx(rng: &mut Rng) -> (Tx, usize) {
     let nin = rng.range(1, 4) as usize; let nout = rng.range(0, 4) as usize;
+    gen_tx_shape(rng, nin, nout)
+}
+
+pub fn gen_tx_shape(rng: &mut Rng, nin: usize, nout: usize) -> (Tx, usize) {
     let inputs = (0..nin).map(|_| TxIn { prev_output: OutPoint { hash: Hash256(rng.bytes(32).try_into().unwrap()), index: rng.next() as u32 }, unlock_script: Script({ let k = rng.below(6) as usize; rng.bytes(k) }), sequence: *rng.pick(&[0u32, 1, 0xffffffff, 0xfffffffe, 1 << 22, 1 << 31]) }).collect();
     let outputs = (0..nout).map(|_| TxOut { satoshis: *rng.pick(&[0i64, 1, -1, i64::MAX, i64::MIN, 21_000_000_0000_0000]), lock_script: Script({ let k = rng.below(30) as usize; rng.bytes(k) }) }).collect();
     let tx = Tx { version: *rng.pick(&[0u32, 1, 2, 0xffffffff]), inputs, outputs, lock_time: *rng.pick(&[0u32, 1, 499_999_999, 500_000_000, 0xffffffff]) };
@@ -116,6 +120,20 @@ pub fn gen(tier: &str, rng: &mut Rng, out: &mut Vec<String>) {
         for st in 0..=s.len() + 1 { for br in 0..=s.len() + 1 {
             out.push(eval_req("c07", &s, 0, Some(st), Some(br), "~", "~", "tf:t:t"));
         } }
+    }
+    // every sighash type byte x every relation between the input index and the number of outputs (the
+    // signature hash is computed before signature and key are parsed, so neither needs to be well formed)
+    for ty in 0u32..=255 {
+        for (nin, nout, idx) in [(1usize, 0usize, 0usize), (1, 1, 0), (2, 1, 1), (2, 1, 0), (3, 1, 2), (3, 2, 2), (3, 3, 2), (4, 2, 3)] {
+            if !thorough && ty % 64 > 3 && (ty + nin as u32) % 7 != 0 { continue; }
+            let (tx, _) = gen_tx_shape(rng, nin, nout); let mut b = vec![]; tx.write(&mut b).unwrap();
+            let sig = vec![0x30, 0x06, 0x02, 0x01, 0x01, 0x02, 0x01, 0x01, ty as u8];
+            let mut s = vec![]; push_with(&mut s, &sig, 0); push_with(&mut s, &[0x02; 33], 0); s.push(if ty % 2 == 0 { 0xac } else { 0xad });
+            for fk in 0..2 { out.push(format!("c07.txeval {} {} ~ ~ ~ ~ {} {} {} {}", hexd(&s), ty % 2, hexd(&b), idx, rng.pick(&[0i64, 1000, -1, i64::MAX]), fk)); }
+            // the same through CHECKMULTISIG
+            let mut m = vec![0x00]; push_with(&mut m, &sig, 0); m.push(0x51); push_with(&mut m, &[0x03; 33], 0); m.push(0x51); m.push(0xae);
+            out.push(format!("c07.txeval {} 0 ~ ~ ~ ~ {} {} 1000 1", hexd(&m), hexd(&b), idx));
+        }
     }
     // signature-check opcodes against the real transaction checker: separators without checksig bytes etc.
     let pats: [&[u8]; 8] = [&[0x51, 0x51, 0xad, 0xab], &[0x51, 0x51, 0xab, 0xad], &[0xab, 0x51, 0x51, 0xac], &[0x51, 0x51, 0xab, 0xab, 0xac], &[0x00, 0x00, 0x00, 0xab, 0xae], &[0x51, 0x51, 0xab, 0x01, 0xac, 0xad], &[0x02, 0xab, 0xab, 0x51, 0xad], &[0x01, 0x41, 0x51, 0xab, 0xad]];
